@@ -157,10 +157,10 @@ def corpus(W: World) -> list:
         [['new', None, [['is_random', F]]], ['new', None, [['is_random', ix(0)]]]],
         [['new', None, [['claw_is_pep526', T]]], ['new', None, [['claw_is_pep526', onef]]]],
         [['new', None, []], ['new', None, [['violation_verbosity', ix(2)]]]],
-        [['new', None, [['hint_overrides', some_fd(['d', 1])]]]],
+        [['new', None, [['hint_overrides', some_fd(['d', 1, False])]]]],
         [['new', None, [['claw_skip_package_names', ix(['a'])]]]],
         [['new', None, [['claw_skip_package_names', ix(('a',))]]], ['new', None, [['claw_skip_package_names', ix(['a'])]]]],
-        [['new', None, [['hint_overrides', some_fd(['fd', 'absent', 'absent', 3, False])]]]],
+        [['new', None, [['hint_overrides', some_fd(['fd', 'absent', 'absent', 3, False, False])]]]],
         [['new', None, []], ['again', None, 0]],
         [['new', None, [['is_pep484_tower', T]]], ['again', None, 0], ['again', None, 1]],
         [['new', None, [['violation_type', ix(ValueError)]]], ['again', None, 0]],
@@ -171,13 +171,13 @@ def corpus(W: World) -> list:
         [['new', 'rubbish', []], ['new', None, []]],
         [['new', None, [['is_check_pep557', T]]], ['new', None, [['is_pep557_fields', T]]], ['new', None, [['is_check_pep557', one]]]],
         [['new', None, [['warning_cls_on_decorator_exception', N]]], ['new', None, []], ['again', None, 0], ['again', None, 1]],
-        [['new', None, [['is_pep484_tower', T], ['hint_overrides', some_fd(['fd', ['other', 0], 'absent', 0, True])]]]],
-        [['new', None, [['is_pep484_tower', T], ['hint_overrides', some_fd(['fd', 'absent', ['other', 1], 0, True])]]],
-         ['new', None, [['hint_overrides', some_fd(['fd', 'absent', ['other', 1], 0, True])]]]],
-        [['new', None, [['is_pep484_tower', T], ['hint_overrides', some_fd(['fd', 'tower', 'absent', 0, True])]]],
+        [['new', None, [['is_pep484_tower', T], ['hint_overrides', some_fd(['fd', ['other', 0], 'absent', 0, True, False])]]]],
+        [['new', None, [['is_pep484_tower', T], ['hint_overrides', some_fd(['fd', 'absent', ['other', 1], 0, True, False])]]],
+         ['new', None, [['hint_overrides', some_fd(['fd', 'absent', ['other', 1], 0, True, False])]]]],
+        [['new', None, [['is_pep484_tower', T], ['hint_overrides', some_fd(['fd', 'tower', 'absent', 0, True, False])]]],
          ['new', None, [['is_pep484_tower', T]]], ['again', None, 0]],
-        [['new', None, [['hint_overrides', some_fd(['fd', 'absent', 'absent', 2, True])]]],
-         ['new', None, [['hint_overrides', [i for i in W.i_fd if W.sx[i] == sexp(['fd', 'absent', 'absent', 2, True])][1]]]]],
+        [['new', None, [['hint_overrides', some_fd(['fd', 'absent', 'absent', 2, True, False])]]],
+         ['new', None, [['hint_overrides', [i for i in W.i_fd if W.sx[i] == sexp(['fd', 'absent', 'absent', 2, True, False])][1]]]]],
         [['new', None, [['violation_door_type', N]]], ['new', None, []]],
         [['new', None, [['is_color', ix(int(W.w.unpassed))]]], ['new', None, [['is_color', N]]], ['new', None, []]],
     ]
@@ -293,9 +293,15 @@ def run_model(W: World, hists: list, prefixes=None) -> list:
     return res
 
 
+_NORM: dict = {}
+
+
 def norm(e):
     """encoded value -> the shape `parse_sexp` gives the model's answer"""
-    return parse_sexp(sexp(e))
+    k = repr(e)
+    if k not in _NORM:
+        _NORM[k] = parse_sexp(sexp(e))
+    return _NORM[k]
 
 
 # ---------------------------------------------------------------------------
@@ -679,7 +685,7 @@ def explore(ck: Check, n: int, maxlen: int, seed: int, batch: int = 40) -> Explo
         ex.extra['source_line_coverage'] = ans.get('coverage')
     ex.distinct_nontrivial = len(nontrivial)
     ex.samples = [{'history': W.describe(h)} for h in hists[len(corpus(W)):len(corpus(W)) + 3]]
-    ex.extra.update({'outcome_distribution': outcomes, 'distinct_histories': len(seen), 'options_passed': optuse,
+    ex.extra.update({'correspondence_first_diffs': ex.corr_diffs[:5], 'outcome_distribution': outcomes, 'distinct_histories': len(seen), 'options_passed': optuse,
                      'value_categories_passed': catuse, 'clauses_failing_histories': clause_hits,
                      'corpus_histories': len(corpus(W)), 'subprocesses': -(-len(hists) // batch),
                      'thread_bursts_8x': THREAD_STATS['rounds'], 'extracted_options': len(W.names), 'hashability_validated_in_source': W.tb['hash_check']})
